@@ -65,7 +65,12 @@ def mutate_bytes(rng, data: bytes, lo=0, hi=None) -> bytes:
 
 def mutate_stl(rng, data: bytes) -> bytes:
   """GSI field corruption, TTI block surgery, random bytes in text fields, truncation."""
-  op = rng.choice(["gsi", "gsi", "tf", "tf", "tti-header", "truncate", "drop-block", "dup-block", "short-block", "empty"])
+  op = rng.choice(["gsi", "gsi", "gsi-boundary", "gsi-boundary", "tf", "tf", "tti-header", "truncate", "drop-block", "dup-block", "short-block", "empty"])
+  if op == "gsi-boundary" and len(data) >= 1024:
+    # a numeric GSI field set to a boundary value: zero, blank, all nines
+    lo, hi = rng.choice([(238, 243), (238, 243), (238, 243), (243, 248), (248, 251), (251, 253), (253, 255), (256, 264), (264, 272), (14, 16), (12, 14)])
+    fill = rng.choice([b"0", b"0", b" ", b"9"])
+    return data[:lo] + fill * (hi - lo) + data[hi:]
   if op == "empty":
     return rng.choice([b"", data[:1024], data[:100], data[:1024 + 64]])
   if op == "gsi":
